@@ -118,6 +118,10 @@ func buildAtomTable() []AtomRow {
 		AtomRow{Kind: "minInclusive", Arg: YFloat(0.0000005), Sat: []Lit{Fl(0.0000005), I(1), Fl(0.000001)}, Viol: []Lit{I(0), Fl(0.0000004), I(-1)}, Class: "value"},
 		AtomRow{Kind: "maxExclusive", Arg: YFloat(1.2345678), Sat: []Lit{Fl(1.2345677), I(1)}, Viol: []Lit{Fl(1.2345678), Fl(1.234568), I(2)}, Class: "value"},
 		AtomRow{Kind: "minExclusive", Arg: YFloat(-0.00000025), Sat: []Lit{I(0), Fl(-0.0000002)}, Viol: []Lit{Fl(-0.00000025), Fl(-0.0000003), I(-1)}, Class: "value"},
+		// arguments with characters that mean something to a formatter or to the policy language
+		AtomRow{Kind: "in", Arg: YSeq(YStr("100%"), YStr("50%")), Sat: strs("100%", "50%"), Viol: strs("100", "%", "50%%"), Class: "value"},
+		AtomRow{Kind: "pattern", Arg: YStr("^[0-9]+%$"), Sat: strs("5%", "100%"), Viol: strs("5", "%5", "5%%x"), Class: "value"},
+		AtomRow{Kind: "containsSome", Arg: YSeq(YStr("a"), YStr("%s")), Set: []string{"a", "%s"}, Class: "set"},
 	)
 	return t
 }
